@@ -20,6 +20,20 @@ func main() {
 		os.Exit(cmdCheck(os.Args[2:]))
 	case "selftest":
 		os.Exit(cmdSelftest(os.Args[2:]))
+	case "rac":
+		// hvc rac <stages> <text>... : run the runtime-checked build on texts
+		run, err := runRAC("/repo", os.Args[3:], os.Args[2], 120*time.Second)
+		if err != nil {
+			fmt.Println("error:", err)
+		}
+		if run != nil {
+			for i := range os.Args[3:] {
+				fmt.Printf("input %d: %v\n", i, run.ByInput[i])
+			}
+			if os.Getenv("HVC_RACOUT") != "" {
+				fmt.Println(run.Output)
+			}
+		}
 	case "overlay":
 		cmdOverlay(os.Args[2:])
 	default:
